@@ -117,6 +117,9 @@ func (s *sc) must(err error, what string) {
 	}
 }
 
+// stopScenario ends a scenario early, after its finding has been recorded.
+type stopScenario struct{}
+
 // RunCase runs one scenario to completion.
 func RunCase(c Case, keepLogs bool) (out Outcome) {
 	out = Outcome{Case: c, Counts: map[string]int{}}
@@ -130,6 +133,8 @@ func RunCase(c Case, keepLogs bool) (out Outcome) {
 		if p := recover(); p != nil {
 			if e, ok := p.(harnessErr); ok {
 				out.Err = e.err.Error()
+			} else if _, ok := p.(stopScenario); ok {
+				// the scenario ended itself after a finding that makes the rest meaningless (a hung call)
 			} else {
 				out.Err = fmt.Sprintf("scenario panicked: %v\n%s", p, debug.Stack())
 			}
